@@ -959,6 +959,9 @@ def oracle_C18(L, K, lines, steps, spec):
                 v.append("step %d %s: empty vector has data_begin() %d != data_end() %d" % (i, sp["op"], ov["dbeg"], ov["dend"]))
             if not (0 <= ov["dbeg"] <= ov["cons"]):
                 v.append("step %d %s: data_begin() of empty vector outside its block (offset %d)" % (i, sp["op"], ov["dbeg"]))
+    # comparison is well defined on empty vectors: == / < as for any other content
+    v += oracle_C13(L, K, lines, steps, spec)
+    v += oracle_C14(L, K, lines, steps, spec)
     # ... and then it behaves like any other vector: contents and alignment of what is stored afterwards
     v += oracle_C03(L, K, lines, steps, spec)
     v += content_mismatches(L, steps, spec)
